@@ -301,7 +301,8 @@ func (c *fakeCloud) DescribeNetworkInterface(ctx context.Context, vpcID string, 
 // input: 10 trunk dual nrec (len rec..)*
 // records: 1 addpod name uid node kind ttlSecs owned | 2 exitpod name | 3 delpod name | 4 reconcile-pod name nf (kind outcome)* |
 //          5 reconcile-podeni name nf (kind outcome)* | 6 gc-records | 7 gc-interfaces | 8 advance secs |
-//          9 foreign-interface tags ageSecs status | 10 api-fault what | 11 hold-next-attach | 12 release-attach
+//          9 foreign-interface tags ageSecs status | 10 api-fault what | 11 hold-next-attach | 12 release-attach |
+//          13 terminate name (deletion timestamp set, still running; a later delpod ends it)
 // kind of a pod: 0 elastic, 1 fixed TTL, 2 fixed Never, 3 two interfaces Never + TTL, 4 two interfaces TTL + Never, 5 not using per-pod interfaces,
 //                6 two interfaces Elastic + fixed TTL, 7 two interfaces fixed Never + Elastic
 // output per step (4 5 6 7 12): 88 step name err now(s) npods (name uid node exited kind)* nrec (name phase uid node deleting finalizer
@@ -379,10 +380,19 @@ func evalHistory(in []*big.Int) ([]*big.Int, []*big.Int) {
 			stack = "dual"
 		}
 		controlplane.SetConfig(&controlplane.Config{ClusterID: clusterID, VPCID: "vpc-1", IPStack: stack, EnableTrunk: ptr.To(trunk)})
-		failCreate, failStatus, conflict := 0, 0, 0
+		failCreate, failStatus, conflict, staleGet := 0, 0, 0, 0
 		apiHits, apiSeen := 0, 0
 		cb := fake.NewClientBuilder().WithScheme(scheme).WithStatusSubresource(&networkv1beta1.PodENI{}).
 			WithInterceptorFuncs(interceptor.Funcs{
+				Get: func(ctx context.Context, c client.WithWatch, key client.ObjectKey, obj client.Object, opts ...client.GetOption) error {
+					if _, ok := obj.(*networkv1beta1.PodENI); ok && staleGet > 0 {
+						// a read served from a cache that has not seen the record yet
+						staleGet--
+						apiHits++
+						return k8sErr.NewNotFound(networkv1beta1.Resource("podenis"), key.Name)
+					}
+					return c.Get(ctx, key, obj, opts...)
+				},
 				Create: func(ctx context.Context, c client.WithWatch, obj client.Object, opts ...client.CreateOption) error {
 					if _, ok := obj.(*networkv1beta1.PodENI); ok && failCreate > 0 {
 						failCreate--
@@ -468,7 +478,11 @@ func evalHistory(in []*big.Int) ([]*big.Int, []*big.Int) {
 				if p.Status.Phase == corev1.PodSucceeded || p.Status.Phase == corev1.PodFailed {
 					ex = 1
 				}
-				out.I(num(p.Name, "p"), num(string(p.UID), "u"), num(p.Spec.NodeName, "node-"), ex, kinds[num(p.Name, "p")])
+				kd := kinds[num(p.Name, "p")]
+				if !p.DeletionTimestamp.IsZero() {
+					kd += 100 // terminating
+				}
+				out.I(num(p.Name, "p"), num(string(p.UID), "u"), num(p.Spec.NodeName, "node-"), ex, kd)
 			}
 			rl := &networkv1beta1.PodENIList{}
 			_ = cl.List(ctx, rl)
@@ -550,7 +564,22 @@ func evalHistory(in []*big.Int) ([]*big.Int, []*big.Int) {
 					_ = cl.Status().Update(ctx, p)
 				}
 			case 3:
-				_ = cl.Delete(ctx, &corev1.Pod{ObjectMeta: metav1.ObjectMeta{Namespace: "default", Name: fmt.Sprintf("p%d", r[1])}})
+				dp := &corev1.Pod{}
+				if cl.Get(ctx, client.ObjectKey{Namespace: "default", Name: fmt.Sprintf("p%d", r[1])}, dp) == nil {
+					if len(dp.Finalizers) > 0 { // a terminating pod (record 13): its termination ends
+						dp.Finalizers = nil
+						_ = cl.Update(ctx, dp)
+					}
+					_ = cl.Delete(ctx, dp)
+				}
+			case 13:
+				// the pod is told to terminate and takes its time: the object carries a deletion timestamp, the containers still run
+				tp := &corev1.Pod{}
+				if cl.Get(ctx, client.ObjectKey{Namespace: "default", Name: fmt.Sprintf("p%d", r[1])}, tp) == nil && tp.DeletionTimestamp.IsZero() {
+					tp.Finalizers = []string{"verif/terminating"}
+					_ = cl.Update(ctx, tp)
+					_ = cl.Delete(ctx, tp)
+				}
 			case 4:
 				setFaults(r)
 				pre = snapshot()
@@ -611,6 +640,8 @@ func evalHistory(in []*big.Int) ([]*big.Int, []*big.Int) {
 					failStatus = 1
 				case 3:
 					conflict = 1
+				case 4:
+					staleGet = 1
 				}
 			case 11:
 				cloud.mu.Lock()
@@ -763,8 +794,23 @@ func gen(r *hx.Rand) [][]*big.Int {
 				recs = append(recs, []int{8, []int{5, 61, 310, 620, 1000}[r.Intn(5)]})
 			case x < 92:
 				recs = append(recs, []int{9, []int{0, 1, 2, 3, 3, 6, 8, 11}[r.Intn(8)], []int{30, 590, 601, 5000}[r.Intn(4)], r.Intn(3)})
-			case x < 95:
-				recs = append(recs, []int{10, 1 + r.Intn(3)})
+			case x < 93:
+				recs = append(recs, []int{10, 1 + r.Intn(4)})
+			case x < 94:
+				// the pod controller looks at a pod whose record it cannot see yet (stale read)
+				if alive[p] {
+					recs = append(recs, []int{10, 4}, []int{4, p, 0}, []int{5, p, 0})
+				}
+			case x < 97:
+				// a pod that takes long to terminate: both controllers keep looking at it, time passes, at last it goes
+				if alive[p] {
+					recs = append(recs, []int{13, p}, []int{4, p, 0}, []int{8, []int{30, 400, 1000}[r.Intn(3)]}, []int{4, p, 0}, []int{5, p, 0}, []int{6})
+					if r.Chance(2, 3) {
+						recs = append(recs, []int{3, p}, []int{4, p, 0})
+						alive[p] = false
+						drive(p)
+					}
+				}
 			default:
 				// the PodENI controller is inside the cloud attach while the pod goes away
 				if alive[p] {
